@@ -1,6 +1,7 @@
 package main
 
 import (
+	"strings"
 	"fmt"
 	"math/rand"
 
@@ -191,6 +192,7 @@ func suiteCMS(c *Ctx) {
 	}
 	cmsMismatch(c)
 	cmsWideMerge(c)
+	cmsGrowingStringKeys(c)
 	cmsWideRedisProbe(c)
 }
 
@@ -579,6 +581,37 @@ func cmsWideRedisProbe(c *Ctx) {
 			map[string]interface{}{"constructor": "NewCountMinSketchRedisFromEstimates(0.0001, 0.9)", "op": "Update(\"x\",1); Count(\"x\")"})
 	} else {
 		c.note("wide redis sketch works (finding D24 no longer reproduces)")
+	}
+}
+
+// cmsGrowingStringKeys: string keys of growing length (70, 100, 130, 250, 500, 66, 1000 bytes) through
+// UpdateString, read back through Count on the bytes and CountString: a key is its bytes, all of
+// them, whatever an implementation stages it in.
+func cmsGrowingStringKeys(c *Ctx) {
+	for _, redis := range []bool{false, true} {
+		h, err := newCMS(3, 64, redis)
+		if err != nil || h == nil {
+			continue
+		}
+		c.rep.Cases++
+		var keys []string
+		for i, n := range []int{70, 100, 130, 250, 500, 66, 1000} {
+			keys = append(keys, strings.Repeat(string(rune('a'+i)), n)+fmt.Sprintf("-%d", c.seed))
+		}
+		for i, k := range keys {
+			if err := h.UpdateString(k, uint64(3+i)); err != nil {
+				return
+			}
+		}
+		for i, k := range keys {
+			v1, _ := h.Count([]byte(k))
+			v2, _ := h.CountString(k)
+			if v1 < uint64(3+i) || v2 != v1 {
+				c.fail([]string{"C03", "C08"}, "cms-undercount", fmt.Sprintf("cms(rows=3,cols=64,redis=%v): a %d-byte string key updated with %d through UpdateString counts %d through Count and %d through CountString", redis, len(k), 3+i, v1, v2), map[string]interface{}{"key_bytes": len(k), "redis": redis})
+				return
+			}
+		}
+		c.branch("growing-string-keys")
 	}
 }
 
